@@ -11,6 +11,8 @@ CHECK = dict(
     units=[
         dict(name="websvc", dir="internal/websvc", src="C19/websvc", runs=[
             dict(name="wire", run="^TestVerifC19Wire$", quick=30000, thorough=1200000, shards_quick=2, shards_thorough=4),
+            dict(name="concurrent", run="^TestVerifC19Concurrent$", quick=3000, thorough=120000, shards_thorough=2),
+            dict(name="concurrent-race", run="^TestVerifC19Concurrent$", quick=300, thorough=6000, race=True),
             dict(name="decide", run="^TestVerifC19Decide$", quick=300000, thorough=6000000, shards_thorough=2),
         ]),
     ],
